@@ -26,15 +26,14 @@ EXPLANATION = (
     "(a) every proper prefix of the sample valid v1/v2 headers as first segment must not close the connection (it used to: finding F47, fixed in 97ae46d), whole "
     "headers are recognised, first segments that cannot start a header are refused or parsed and never forwarded unparsed; V1Parser.feed / "
     "V2Parser.feed as step functions wait for an incomplete header, hand a just-completed one to parse() and return exactly the bytes after it; "
-    "V1Parser.parse on the sample lines yields source = (src, sport), destination = (dst, dport) of the right family and refuses malformed lines "
+    "V2Parser.parse never interprets the family byte / address block of a LOCAL header (structural) and, evaluated on the sample headers with constantly.Values replaced by a stand-in built from the class bodies, yields the prescribed addresses and refuses invalid headers; V1Parser.parse on the sample lines yields source = (src, sport), destination = (dst, dport) of the right family and refuses malformed lines "
     "with InvalidProxyHeader (the bare 'PROXY UNKNOWN' line used to be refused: finding F47u, fixed in 7c304b5); getPeer/getHost answer the header's addresses or fall "
     "back to the transport; (d) header + payload delivered at once and in every 2-way / many 3-way segmentations (cut anywhere, also inside the signature) give the "
     "same observable result, with all object state threaded from call to call. Structural (CFG, helpers inlined): bytes reach "
     "the wrapped protocol only as pass-through once the header is known or as the 'remaining' returned by feed(data); InvalidProxyHeader from feed "
     "closes and forwards nothing; a stored parser is not re-sniffed; (c) tables: ADDRESSFORMATS rows / sizes / slice width, version and signature "
     "constants, allowed v1 protocols, V2 source/destination slots. Informational only: .decode()/int() outside convertError. Not decided: equality of "
-    "parsed addresses with the header's for all inputs (sample headers only), V2Parser.parse by evaluation (constantly.Values is outside the "
-    "interpreted modules)."
+    "parsed addresses with the header's for all inputs (sample headers only)."
     " METHODS per clause: first-segment refusal = finite-exhaustive over all segment lengths below the largest length threshold (content tests not evaluated) plus the "
     "interpreted prefixes as witness layer; signature slice widths, v2 completeness guard (lincmp normal form), terminator searched in the accumulated buffer, wrapper "
     "ordering, who-may-write and all tables = structural (each abstains with a note when the shape is not recognised); version dispatch, garbage refusal, feed step "
@@ -53,7 +52,7 @@ RULE_KINDS = {
     "sniff/valid-prefix-rejected": "bounded", "sniff/version-dispatch": "bounded", "sniff/garbage-rejected": "bounded",
     "v1feed/incomplete-waits": "bounded", "v1feed/completed-header-parsed": "bounded", "v1feed/length-limit": "bounded",
     "v2feed/incomplete-waits": "bounded", "v2feed/completed-header-parsed": "bounded",
-    "parse/v1-evaluated": "bounded", "parse/v1-invalid-lines-refused": "bounded", "wrapper/address-from-header": "bounded", "wrapper/address-fallback": "bounded",
+    "parse/v1-evaluated": "bounded", "parse/v1-invalid-lines-refused": "bounded", "parse/v2-evaluated": "bounded", "parse/v2-invalid-headers-refused": "bounded", "wrapper/address-from-header": "bounded", "wrapper/address-fallback": "bounded",
     "segmentation/": "bounded",
 }
 ASSUMPTIONS = [
@@ -404,6 +403,91 @@ def _evaluated(ctx, K):
             r = run("V1Parser.parse", lambda: parse(line))
             ctx.check(isinstance(r, tuple) and r[:1] == ("raised",) and r[2] is True, "parse/v1-invalid-lines-refused", qp + f" | <{line[:14]!r}...>",
                       f"parse({line!r}) gives {r!r}; an InvalidProxyHeader (or subclass {exc}) is required so that the wrapper closes the connection")
+    # ---- V2Parser.parse: structural LOCAL clause + evaluation on the sample headers ---------------------------------------------------------
+    with ctx.section("V2Parser.parse"):
+        qp2 = Q + "_v2parser.V2Parser.parse"
+        fp2 = _F(ctx, V2, "V2Parser.parse")
+        gp2 = ctx.cfg(fp2)
+        # structural: a LOCAL command carries no addresses - its family/protocol byte and address block are not interpreted at all
+        lookups = call_nodes(gp2, ".lookupByValue") + [n.id for n in gp2.nodes if n.kind == "stmt" and gp2.reachable(n.id) and "ADDRESSFORMATS[" in src(n.ast)]
+        local_tests = [t.id for t in gp2.nodes if t.kind == "test" and gp2.reachable(t.id) and "_LOCALCOMMAND" in src(resolve_locals(fp2, t.ast))]
+        if not lookups or not local_tests:
+            ctx.note("parse/v2-local-ignores-address-block: LOCAL test / family lookups not recognised in V2Parser.parse; clause left to parse/v2-evaluated")
+        else:
+            lf = {"cls.COMMANDS[command]": "LOCAL", "_LOCALCOMMAND": "LOCAL", "_PROXYCOMMAND": "PROXY"}
+            srcs_ = local_tests
+            R = reach_under(gp2, lf, srcs=srcs_)
+            ctx.check(not (R & set(lookups)) and all(gp2.must_precede(local_tests, [l_]) is None for l_ in lookups), "parse/v2-local-ignores-address-block", qp2 + " | <LOCAL command>",
+                      "for a LOCAL header (health check of the proxy itself) the family/protocol byte is looked up / the address block is interpreted before, or in spite "
+                      "of, the LOCAL test: a valid LOCAL header with an unspecified or unknown family byte is refused instead of being accepted without addresses",
+                      witness=gp2.describe(path_under(gp2, lf, set(lookups), srcs=srcs_)) if R & set(lookups) else
+                      gp2.describe(next((w_ for w_ in (gp2.must_precede(local_tests, [l_]) for l_ in lookups) if w_), None)))
+        # evaluated on the sample headers (constantly.Values replaced by a stand-in built from the class bodies)
+        class _Const(VMStub):
+            def __init__(self, name, value):
+                self.name, self.value = name, value
+
+            def __repr__(self):
+                return f"<{self.name}>"
+
+        def values_stub(cls_name):
+            ca = class_assigns(ctx.cls(V2, cls_name))
+            consts = {k: _Const(f"{cls_name}.{k}", peval(v.args[0], {})) for k, v in ca.items() if isinstance(v, ast.Call) and call_name(v) == "ValueConstant" and v.args}
+
+            class _Vals(VMStub):
+                pass
+            st = _Vals()
+            for k, c_ in consts.items():
+                setattr(st, k, c_)
+
+            def lookup(v):
+                for c_ in consts.values():
+                    if c_.value == v:
+                        return c_
+                raise ValueError(v)
+            st.lookupByValue = lookup
+            return st
+
+        class _Compat(VMStub):
+            @staticmethod
+            def iterbytes(b):
+                return [b[i:i + 1] for i in range(len(b))]
+
+        vm = MiniVM(ctx.mod(V2), siblings={"._exceptions": ctx.mod("protocols/haproxy/_exceptions.py")},
+                    overrides={"address": _Addr(), "_info": _Info(), "convertError": lambda s_, t_: _Convert(s_, t_), "compat": _Compat(),
+                               "NetFamily": values_stub("NetFamily"), "NetProtocol": values_stub("NetProtocol")})
+        pcls = vm.cls("V2Parser")
+
+        def parse2(line):
+            try:
+                return vm.call(vm.getattr(pcls, "parse"), [line], {})
+            except VMError as e:
+                raise AnalysisError(f"V2Parser.parse: construct outside the interpreter's subset: {e}")
+            except VMRaise as e:
+                return ("raised", e.exc.names()[0])
+            except _NativeRaise as e:
+                return ("raised-native", type(e.native).__name__)
+
+        def ip6(b):
+            return ":".join("%x" % int.from_bytes(b[i:i + 2], "big") for i in range(0, 16, 2))
+        h4, h6, hu, hl = (V2_SAMPLES[k] for k in ("INET/STREAM", "INET6/DGRAM+TLV", "UNIX/STREAM", "LOCAL"))
+        cases = [("INET/STREAM", h4, ("ProxyInfo", h4, ("IPv4Address", "TCP", "192.0.2.1", 56324), ("IPv4Address", "TCP", "198.51.100.7", 443))),
+                 ("INET6/DGRAM+TLV", h6, ("ProxyInfo", h6, ("IPv6Address", "UDP", ip6(h6[16:32]), 1), ("IPv6Address", "UDP", ip6(h6[32:48]), 2))),
+                 ("UNIX/STREAM", hu, ("ProxyInfo", hu, ("UNIXAddress", b"/a"), ("UNIXAddress", b"/b"))),
+                 ("LOCAL", hl, ("ProxyInfo", hl, None, None))]
+        for fam in (0x00, 0x11, 0x50, 0xFF, 0x13):
+            hx = _SIG + b"\x20" + bytes([fam]) + struct.pack("!H", 0)
+            cases.append((f"LOCAL with family/protocol byte {fam:#04x}", hx, ("ProxyInfo", hx, None, None)))
+        hun = _SIG + b"\x21\x00" + struct.pack("!H", 0)
+        cases.append(("PROXY command with UNSPEC family", hun, ("ProxyInfo", hun, None, None)))
+        for lab, hdr, want in cases:
+            r = parse2(hdr)
+            ctx.check(r == want, "parse/v2-evaluated", qp2 + f" | <{lab}>", f"parse() of a valid v2 {lab} header gives {r!r}; the PROXY protocol prescribes {want!r}")
+        for lab, hdr in (("version 1 in a v2 signature", _SIG + b"\x11\x11" + struct.pack("!H", 12) + bytes(12)), ("unknown command", _SIG + b"\x2f\x11" + struct.pack("!H", 12) + bytes(12)),
+                         ("PROXY command with an undefined family", _SIG + b"\x21\x51" + struct.pack("!H", 12) + bytes(12)), ("address block cut short", _SIG + b"\x21\x11" + struct.pack("!H", 4) + bytes(4))):
+            r = parse2(hdr)
+            ctx.check(isinstance(r, tuple) and r[:1] == ("raised",), "parse/v2-invalid-headers-refused", qp2 + f" | <{lab}>",
+                      f"parse() of an invalid v2 header ({lab}) gives {r!r}; an InvalidProxyHeader (or subclass) is required so that the wrapper closes the connection")
     return kmin
 
 
@@ -816,6 +900,25 @@ MUTANTS = [
            expect_rule="s"),
     Mutant("F47-wait-test-too-generous-garbage-never-refused", W, "            elif (len(data) < 16 and data[:12] == V2Parser.PREFIX[: len(data)]) or (\n                len(data) < 8 and data[:5] == V1Parser.PROXYSTR[: len(data)]\n            ):\n",
            "            elif len(data) < 16:\n", expect_rule="s"),
+    Mutant("v2-local-header-family-byte-looked-up-first", V2,
+           "        if cls.COMMANDS[command] == _LOCALCOMMAND:\n            return _info.ProxyInfo(line, None, None)\n\n        family, netproto = familyProto & _HIGH, familyProto & _LOW\n"
+           "        with convertError(ValueError, InvalidNetworkProtocol):\n            family = NetFamily.lookupByValue(family)\n            netproto = NetProtocol.lookupByValue(netproto)\n",
+           "        family, netproto = familyProto & _HIGH, familyProto & _LOW\n"
+           "        with convertError(ValueError, InvalidNetworkProtocol):\n            family = NetFamily.lookupByValue(family)\n            netproto = NetProtocol.lookupByValue(netproto)\n"
+           "        if cls.COMMANDS[command] == _LOCALCOMMAND:\n            return _info.ProxyInfo(line, None, None)\n\n",
+           expect_rule="parse/v2-local-ignores-address-block"),
+    Mutant("v2-local-header-evaluated-refusal", V2,
+           "        if cls.COMMANDS[command] == _LOCALCOMMAND:\n            return _info.ProxyInfo(line, None, None)\n\n        family, netproto = familyProto & _HIGH, familyProto & _LOW\n"
+           "        with convertError(ValueError, InvalidNetworkProtocol):\n            family = NetFamily.lookupByValue(family)\n            netproto = NetProtocol.lookupByValue(netproto)\n",
+           "        family, netproto = familyProto & _HIGH, familyProto & _LOW\n"
+           "        with convertError(ValueError, InvalidNetworkProtocol):\n            family = NetFamily.lookupByValue(family)\n            netproto = NetProtocol.lookupByValue(netproto)\n"
+           "        if cls.COMMANDS[command] == _LOCALCOMMAND:\n            return _info.ProxyInfo(line, None, None)\n\n",
+           expect_rule="parse/v2-evaluated"),
+    Mutant("wait-test-without-length-bound-wrong-version-waits-forever", W,
+           "            elif (len(data) < 16 and data[:12] == V2Parser.PREFIX[: len(data)]) or (\n", "            elif (data[:12] == V2Parser.PREFIX[: len(data)]) or (\n",
+           expect_rule="sniff/garbage-rejected"),
+    Mutant("v2-dgram-reported-as-tcp", V2, "        if netproto is NetProtocol.DGRAM:\n            addrType = \"UDP\"\n", "        if netproto is NetProtocol.STREAM:\n            addrType = \"UDP\"\n",
+           expect_rule="parse/v2-evaluated"),
     Mutant("v1-unknown-not-allowed", V1, "    ALLOWED_NET_PROTOS = (\n        TCP4_PROTO,\n        TCP6_PROTO,\n        UNKNOWN_PROTO,\n    )", "    ALLOWED_NET_PROTOS = (\n        TCP4_PROTO,\n        TCP6_PROTO,\n    )",
            expect_rule="v1table/allowed-protocols"),
 ]
